@@ -27,13 +27,16 @@ func (Engine) Plan(property, tier string) core.Plan {
 	}
 	p.Runs = runs
 	p.Rule = "one case = one seeded operation program (Get/Has/Set/Delete/iterators with nil, empty, inverted and between-keys bounds/Write) over a tree of store wrappers, compared operation by operation with a sorted-map model"
+	if property == "C16" {
+		p.Rule += "; every 12th case drives 2-5 types.Subspace values with prefix-related names over the shared params store through a real Context and compares them with one map per subspace"
+	}
 	if property == "C15" {
 		p.Rule += "; every 6th case is a concurrent one: 2-4 client programs on one cachekv.Store under a seeded schedule, history checked with porcupine"
 	}
 	p.Rule += "; distinct = distinct trace digest; non-trivial = at least one write and one read/iteration (concurrent: >= 2 clients and >= 4 operations)"
 	p.Assumptions = []string{
 		"gas and trace wrappers are exercised at the top of a stack or directly under a prefix store (the shapes types.Context and types.Subspace build); below a cache wrapper their side effects depend on read caching, which no statement fixes",
-		"iterators that stay open across a later write are held to a weaker rule (sorted, in range) because the statement does not fix snapshot vs. live semantics",
+		"an iterator yields exactly the overlay it was created on as long as later writes land in caching wrappers; once a write reaches a base store under an open iterator the two-sided rule applies (every yielded pair is a value the key held since the iterator was opened; untouched keys exactly once)",
 		"the serialising scheduler hides data races from the race detector; a separate -race stress runs in the thorough tier",
 	}
 	return p
@@ -52,6 +55,9 @@ func Generate(property, tier string, seed uint64, idx uint64) *Trace {
 	tr := &Trace{Engine: "kvsim", Property: property, Seed: seed, Mode: "seq"}
 	if property == "C15" && idx%6 == 5 {
 		return genConc(r, tr, tier)
+	}
+	if property == "C16" && idx%12 == 11 {
+		return genSubspace(r, tr)
 	}
 	nKeys := r.Range(3, len(keyAlpha))
 	// ---- tree
@@ -389,6 +395,9 @@ func (Engine) Execute(trace []byte) (*core.Result, error) {
 	if tr.Mode == "conc" {
 		return executeConc(tr)
 	}
+	if tr.Mode == "subspace" {
+		return executeSubspace(tr)
+	}
 	return executeSeq(tr)
 }
 
@@ -396,6 +405,9 @@ func (Engine) Sample(trace []byte) interface{} {
 	tr, err := Unmarshal(trace)
 	if err != nil {
 		return string(trace)
+	}
+	if tr.Mode == "subspace" {
+		return map[string]interface{}{"mode": "subspace", "subspaces": tr.Sub}
 	}
 	if tr.Mode == "conc" {
 		return map[string]interface{}{"mode": "conc", "clients": tr.Clients, "preload": tr.Preload, "schedule_len": len(tr.Sched)}
@@ -448,6 +460,18 @@ func (Engine) Shrink(trace []byte, keep func([]byte) bool, sb core.ShrinkBudget)
 			}
 		}
 		return tr.Marshal()
+	}
+	if tr.Mode == "subspace" && tr.Sub != nil {
+		n := len(tr.Sub.Ops)
+		build := func(k []int) *Trace {
+			c := tr.Clone()
+			c.Sub.Ops = nil
+			for _, i := range k {
+				c.Sub.Ops = append(c.Sub.Ops, tr.Sub.Ops[i])
+			}
+			return c
+		}
+		return build(core.DDMin(n, func(k []int) bool { return try(build(k)) }, b)).Marshal()
 	}
 	n := len(tr.Ops)
 	build := func(k []int) *Trace {
